@@ -27,7 +27,16 @@ def gen_cases(rng, n, tier):
 
 
 def corpus():
+    inh = dict(shape='inh', strategy='validity', changes=False, tracker=False, null_delete=False, autoflush=False)
     return [
+        # single-table inheritance: a base-class object is updated first, then a subclass object in a column that
+        # only the subclass has (two flushes, and one flush)
+        dict(cfg=inh, prog=[['add', 0, 1, {'a': 1}], ['add', 2, 2, {'a': 1, 'tracks': 1}], ['commit'], ['set', 0, 1, {'a': 2}],
+                            ['flush'], ['set', 2, 2, {'tracks': 5}], ['commit'], ['set', 0, 1, {'a': 3}],
+                            ['set', 2, 2, {'tracks': None}], ['commit']]),
+        dict(cfg=dict(inh, strategy='subquery'),
+             prog=[['add', 0, 1, {'a': 1}], ['add', 2, 2, {'a': 1, 'tracks': 1}], ['commit'], ['set', 0, 1, {'a': 2}],
+                   ['flush'], ['set', 2, 2, {'tracks': 5}], ['commit']]),
         dict(cfg=dict(shape='own', strategy='validity'),
              prog=[['add', 0, 1, {'a': 1}], ['add', 1, 1, {'a': 1}], ['petto', 1, 1], ['commit'], ['forget'], ['del', 0, 1], ['commit']]),
         dict(cfg=dict(shape='blog', strategy='validity', defaults=True, null_delete=True),
